@@ -325,3 +325,44 @@ func safeEvalBool(env *CEnv, e *CE) (t *Term, msg string) {
 	}()
 	return env.evalBool(e), ""
 }
+
+// backEdgeAsserts: "callsite backedge#k assert [tag] e" - e must hold at the end of every iteration of
+// loop k (on each back edge), over the body's source-level locals; old(x) denotes the value x had at
+// the head of that iteration. With a ghost counter bumped by the calls of interest this states "an
+// iteration that did not make the call had no reason to".
+func (x *Exec) backEdgeAsserts(fr *Frame, li *LoopInfo, from *ssa.BasicBlock, st *State) {
+	if fr.fc == nil || len(fr.fc.CallSites) == 0 {
+		return
+	}
+	want := fmt.Sprintf("backedge#%d", li.Ordinal)
+	headState, ok := fr.loopHead[li]
+	if !ok {
+		return
+	}
+	head := &headState
+	idx := len(from.Instrs) - 1
+	for _, cs := range fr.fc.CallSites {
+		if cs.Callee != want || cs.IsUse || cs.IsReach {
+			continue
+		}
+		env := &CEnv{x: x, fr: fr, st: st, old: head, pkg: fr.pkg, mode: x.m(), vars: map[string]Value{}, ghostsOK: fr == fr.top, goal: true, calleeEnv: true}
+		for i, p := range fr.fn.Params {
+			if i < len(fr.params) {
+				env.vars[p.Name()] = fr.env[p]
+			}
+		}
+		env.lookup = func(n string) (Value, bool) { return x.lookupLocalAt(fr, from, idx, st, n) }
+		tag := cs.Tag
+		if tag == "" {
+			tag = want
+		}
+		g, evalErr := safeEvalBool(env, cs.Clause.Expr)
+		if evalErr != "" {
+			o := x.vc.oblige("callsite."+tag, Implies(st.Reach, TFalse), x.loopPos(fr, li), fmt.Sprintf("at the end of an iteration of loop %d the clause cannot be evaluated (%s): %s", li.Ordinal, evalErr, cs.Clause.Src))
+			o.Clause = cs.Clause.Src
+			continue
+		}
+		o := x.vc.oblige("callsite."+tag, Implies(st.Reach, g), x.loopPos(fr, li), fmt.Sprintf("at the end of every iteration of loop %d: %s", li.Ordinal, cs.Clause.Src))
+		o.Clause = cs.Clause.Src
+	}
+}
